@@ -279,7 +279,7 @@ func (r *Run) Guard(x *explore.X, what string, detail map[string]any, f func()) 
 				site := "step-budget:" + what
 				d2 := cloneDetail(detail)
 				d2["what"] = what
-				r.failV(&Violation{Property: r.Check.ID, Clause: "terminates", Signature: site, Detail: d2, Vector: x.Choices(), Site: site})
+				r.failV(&Violation{Property: r.Check.ID, Clause: "terminates", Signature: site, Detail: d2, Vector: x.Choices(), Site: site, Stack: trimStack(string(debug.Stack()))})
 				ok = false
 				return
 			}
